@@ -307,6 +307,9 @@ func (e *SpecEnv) eval(x ast.Expr) (SV, error) {
 			_, _, vals, dom := w.mapHeaps(e.state(), u)
 			val := T(fmt.Sprintf("(select (select %s %s) %s)", vals.S, xv.T.S, iv.T.S), w.sortOf(u.Elem()))
 			w.assume(fmt.Sprintf("(=> (not (select (select %s %s) %s)) (= %s %s))", dom.S, xv.T.S, iv.T.S, val.S, w.zero(u.Elem()).S))
+			for _, f := range w.typeFacts(val, u.Elem()) {
+				w.assume(f)
+			}
 			return SV{val, u.Elem()}, nil
 		}
 		if isString(xv.Typ) {
